@@ -79,6 +79,10 @@ SCHEMAS = {
     'object': ({'type': 'object', 'properties': {'k': {'type': 'string'}}, 'required': ['k'], 'additionalProperties': False},
                [{'k': 'v'}, {}, {'k': 1}, {'k': 'v', 'z': 1}, [], None]),
     'nullable': ({'type': ['integer', 'null']}, [None, 1, 'x']),
+    # alternatives: a value that matches none of them fails with a compound error (sub-errors per alternative)
+    'anyof': ({'anyOf': [{'type': 'integer'}, {'type': 'string', 'maxLength': 2}]}, [1, 'ab', 'abc', None, 1.5]),
+    'oneof': ({'oneOf': [{'type': 'integer'}, {'type': 'number', 'minimum': 5}]}, [1, 7.5, 7, 2.5, 'x']),
+    'nested': ({'type': 'array', 'items': {'anyOf': [{'type': 'integer', 'minimum': 0}, {'type': 'null'}]}}, [[1, None], [-1], ['x', 1], []]),
 }
 
 
@@ -452,7 +456,7 @@ halves = D.halves
 
 def relevant(prop, c):
     # C03 "parameters that do not bind to, or do not validate against, the method -> -32602 without running it"
-    return prop == 'C14' or (prop == 'C03' and not c.get('twin'))
+    return prop in ('C14', 'C01') or (prop == 'C03' and not c.get('twin'))
 
 
 def _proj_one(o):
@@ -468,9 +472,12 @@ def _proj_one(o):
 
 
 def project(prop, c, out):
-    if prop not in ('C14', 'C03'):
+    if prop not in ('C14', 'C03', 'C01'):
         return None
     hs = halves(out)
+    if prop == 'C01':
+        # whatever the validator makes of the call, dispatch answers (or stays silent): it never raises
+        return {h: {'raised': hs[h]['result']['k'] == 'raised'} for h in HALVES}
     if prop == 'C03':
         return {h: {k: v for k, v in _proj_one(hs[h]).items() if k in ('k', 'error_code') or k == 'exec' and False} | {'ran': bool(_proj_one(hs[h])['exec'])}
                 for h in HALVES}
@@ -486,6 +493,12 @@ def label(c, mo):
 
 def oracle(prop, c, out):
     f = []
+    if prop == 'C01':
+        for half in HALVES:
+            r = out[half]['result']
+            if r['k'] == 'raised':
+                f.append(Finding(prop, f'escape:{r.get("exc")}', f'[{half}] {r.get("exc")} escaped from dispatch for a call to a validated method', c, r))
+        return f
     if prop not in ('C14', 'C03'):
         return f
     want = c['expected']
